@@ -4,10 +4,11 @@ import json, os
 from .. import translate as T
 from ..gen import mesh as G
 from ..gen import guardtable as GT
+from ..gen import c01_source as CS
 
 PID = "C01"
 TITLE = "Surface connectivity answers agree with the face list"
-LEAN_MODULES = ["Mouette.Props.C01", "Mouette.Props.C01Ring"]
+LEAN_MODULES = ["Mouette.Props.C01", "Mouette.Props.C01Ring", "Mouette.Props.C01Source"]
 REQUIRED_THEOREMS = [
     # histories (generic machine + instance on the translated guard table)
     "lazy_history_independent", "lazy_order_independent", "fresh_never_worse", "generated_table_wellguarded", "surface_history_independent",
@@ -21,6 +22,11 @@ REQUIRED_THEOREMS = [
     "vertexToFaces_eq_map", "vertexToEdges_eq_map", "umbrella_check_sound", "cornersAt_eq_spec", "stepB_eq_spec",
     "stepF_stepB_inverse", "ring_sorted_vertices_border", "ring_sorted_vertices_interior", "spoke_eq_spec",
     "vertexToVertices_mem_spec", "oppositeFace_eq_spec", "commonEdge_eq_spec",
+    # round 4: method bodies translated imperatively from surface.py / linear.py + bridges
+    "source_is_edge_on_border_eq_model", "source_interior_boundary_edges_eq_model", "source_mesh_type_eq_model",
+    "source_face_id_eq_model", "source_edge_id_eq_model", "source_edge_id_spec", "source_is_edge_on_border_spec",
+    "source_face_id_spec", "source_border_partition", "source_edge_to_faces_eq_model", "source_face_to_edges_eq_model",
+    "source_vertex_to_edges_eq_model", "source_other_edge_end_eq_model", "source_interior_boundary_vertices_eq_model", "borderEnds_lt",
 ]
 TRUSTED = [
     "Lean 4.33.0 kernel; axioms ⊆ {propext, Classical.choice, Quot.sound}",
@@ -30,6 +36,8 @@ TRUSTED = [
     "list; checked by the history correspondence of each run",
     "hand-written model Mouette/Model/Surface.lean tied to surface.py/linear.py/mesh_data.py by the correspondence of this "
     "run (all accessors on all elements of every generated mesh)",
+    "body translator vlib/gen/c01_pylean.py + vocabulary vlib/gen/c01_source.py (how `self.edges`, `enumerate`, `keyify`, a dict "
+    "cache and the calls to other accessors are rendered in Lean); the bridges Generated = Model are theorems",
     "iteration order of Python sets is forgotten (rings of interior vertices compared up to rotation, unsorted rings as sets)",
 ]
 ASSUMPTIONS = ["input is an oriented manifold polygon surface without isolated vertices (generator + independent check)",
@@ -808,8 +816,59 @@ def translate():
     header = "import Mouette.Model.Lazy\nnamespace Mouette.Generated.C01\nopen Mouette.Lazy\n\n"
     body = GT.lean_table(state["t"]) if r["ok"] else FALLBACK
     T.write_generated("C01Guards", body + "\nend Mouette.Generated.C01\n", header)
-    return [r]
+    return [r] + CS.translate_sites()
 
+
+
+# ------------------------------------------------------------------------------------------------
+# SOURCE_MAP: every function of the anchor files -> how it is tied to the Lean side
+#   translated  = its BODY is compiled to Generated/C01Src.lean on every run and a bridge theorem of Props/C01Source uses it
+#   modelled    = hand-written in Model/Surface.lean (tied by the correspondence run); for the lazily cached accessors the guard
+#                 structure (None-tests, compute calls, reads, writes, resets) IS translated (Generated/C01Guards.lean), the answer is not
+# ------------------------------------------------------------------------------------------------
+def _smap():
+    S, L, M = "mouette/mesh/datatypes/surface.py::", "mouette/mesh/datatypes/linear.py::", "mouette/mesh/mesh_data.py::"
+    g = "modelled: guard structure translated (C01Guards), answer hand-modelled in Model/Surface.lean"
+    m = {}
+    for f in CS.FUNCTIONS:
+        m[(S if f.startswith("SurfaceMesh") else L) + f] = "translated"
+    for f in ["SurfaceMesh.__init__", "SurfaceMesh.is_triangular", "SurfaceMesh.is_quad", "SurfaceMesh.clear_boundary_data",
+              "SurfaceMesh.is_vertex_on_border", "SurfaceMesh.interior_edges",
+              "SurfaceMesh.boundary_edges", "SurfaceMesh.boundary_vertices", "SurfaceMesh.interior_vertices",
+              "SurfaceMesh._Connectivity.__init__", "SurfaceMesh._Connectivity.clear", "SurfaceMesh._Connectivity._compute_connectivity",
+              "SurfaceMesh._Connectivity._sort_vertex_neighborhoods", "SurfaceMesh._Connectivity.vertex_to_faces",
+              "SurfaceMesh._Connectivity.vertex_to_corners", "SurfaceMesh._Connectivity.vertex_to_corner_in_face",
+              "SurfaceMesh._Connectivity.previous_corner", "SurfaceMesh._Connectivity.next_corner", "SurfaceMesh._Connectivity.opposite_corner",
+              "SurfaceMesh._Connectivity.corner_to_half_edge", "SurfaceMesh._Connectivity.corner_to_face",
+              "SurfaceMesh._Connectivity.half_edge_to_corner", "SurfaceMesh._Connectivity.direct_face", "SurfaceMesh._Connectivity.opposite_face",
+              "SurfaceMesh._Connectivity.common_edge", "SurfaceMesh._Connectivity.face_to_vertices", "SurfaceMesh._Connectivity.in_face_index",
+              "SurfaceMesh._Connectivity.face_to_first_corner", "SurfaceMesh._Connectivity.face_to_corners", "SurfaceMesh._Connectivity.face_to_faces"]:
+        m[S + f] = g
+    for f in ["SurfaceMesh.id_vertices", "SurfaceMesh.id_edges", "SurfaceMesh.id_faces", "SurfaceMesh.id_corners"]:
+        m[S + f] = "modelled: range shortcut (List.range in the model)"
+    m[S + "SurfaceMesh.__str__"] = "out-of-scope: printing"
+    m[S + "SurfaceMesh.ith_vertex_of_face"] = "out-of-scope: plain indexing helper, not an adjacency answer of the statement"
+    m[S + "SurfaceMesh.pt_of_face"] = "out-of-scope: coordinates (C07), not connectivity"
+    for f in ["PolyLine._Connectivity.__init__", "PolyLine._Connectivity.clear", "PolyLine._Connectivity._compute_connectivity",
+              "PolyLine._Connectivity.vertex_to_vertices", "PolyLine._Connectivity.edge_to_vertices"]:
+        m[L + f] = g
+    for f in ["PolyLine.__init__", "PolyLine.__str__", "PolyLine.id_vertices", "PolyLine.id_edges"]:
+        m[L + f] = "out-of-scope: the PolyLine mesh class itself (only its _Connectivity is the base class of the surface connectivity)"
+    m[M + "RawMeshData._complete_edges_from_faces"] = "modelled: Model/Surface.lean edgesOf (edge container = undirected sides by first occurrence)"
+    m[M + "RawMeshData._generate_face_corners"] = "modelled: Model/Surface.lean faceCorners"
+    m[M + "RawMeshData._prepare_edges"] = "oracle-only: the oracle checks that mesh.edges lists every undirected side once"
+    m[M + "RawMeshData._prepare_edges.is_valid"] = "oracle-only: part of _prepare_edges"
+    for f in ["RawMeshData.__init__", "RawMeshData.id_vertices", "RawMeshData.id_edges", "RawMeshData.id_faces", "RawMeshData.id_cells",
+              "RawMeshData.id_facecorners", "RawMeshData.id_cellcorners", "RawMeshData.dimensionality", "RawMeshData._compute_dimensionality",
+              "RawMeshData.prepare", "RawMeshData._prepare_vertices", "RawMeshData._prepare_faces"]:
+        m[M + f] = "out-of-scope: normalisation of raw input data is property C02"
+    for f in ["RawMeshData._prepare_cells", "RawMeshData._generate_cell_corners", "RawMeshData._generate_cell_faces",
+              "RawMeshData._complete_faces_from_cells"]:
+        m[M + f] = "out-of-scope: volume meshes (C02/C03)"
+    return m
+
+
+SOURCE_MAP = _smap()
 
 MANIFEST = {
     "level_text": ("Proof. Lean 4 theorems about an executable model of SurfaceMesh connectivity built exactly like the code (half-edge "
@@ -825,7 +884,11 @@ MANIFEST = {
                    "about lazily filled caches (any guard table that passes a decidable closure check answers every query, after every "
                    "finite history, with the pure answer and never raises) is instantiated by `decide` on the guard table re-extracted "
                    "from surface.py/linear.py with Python ast on every run. The model is tied to the code by running every accessor on "
-                   "every element of generated manifold surfaces in three query orders, plus a direct face-list oracle."),
+                   "every element of generated manifold surfaces in three query orders, plus a direct face-list oracle. Round 4: the BODIES of "
+                   "is_edge_on_border, _compute_interior_boundary_edges, _compute_interior_boundary_vertices, _compute_mesh_type, "
+                   "_compute_face_ids, face_id, _compute_edge_id, edge_id, edge_to_faces, face_to_edges, other_edge_end, vertex_to_edges are "
+                   "compiled statement by statement from surface.py/linear.py into Generated/C01Src.lean on every run and proved equal to "
+                   "the model (Props/C01Source), so the border-partition / edge-id / face-id theorems speak about the source text."),
     "level_note": ("Trusted: Lean kernel + propext/Classical.choice/Quot.sound; the ast translator of the guard table; the abstraction "
                    "'filled cache = pure function of the face list'; hand-written Surface model (sampled agreement only); set iteration "
                    "order forgotten (the ring theorems hold for every starting corner)."),
